@@ -341,6 +341,16 @@ class World:
                     self.reply('"%s"' % E80.hex()); r = self.call(method, p.getblockheader, b'\x06' * 32)
                     if r.serialize() != E80 or r.GetHash() != H.dsha(E80):
                         raise Violation('object/getblockheader', 'returned header differs from the served hex')
+        elif k == 'calls':
+            # a long run of plain calls on the same proxy: ids keep increasing (no wrap, no reset), results keep coming through
+            for i in range(op[1]):
+                self.reply('%d' % (i % 1000))
+                if self.call('getblockcount', p.getblockcount) != i % 1000:
+                    raise Violation('soak/result', 'call number %d on this proxy returned a wrong result' % i)
+                if i % 64 == 0:
+                    self.check_ids()
+                    del self.conn.reqs[:]
+                    self.calls = 0
         elif k == 'error':
             method, shape, code = op[1], op[2], op[3]
             exp_code = code
@@ -513,4 +523,11 @@ def t_random(ctx):
     ctx.hyp(s_case, ctx.n(300, 5000))
 
 
-TASKS = [('stateful', (t_stateful, 8)), ('random', (t_random, 6)), ('amounts', (t_amounts, 2))]
+def t_soak(ctx):
+    n = ctx.n(70000, 300000)
+    ctx.run({'ops': [['get_hash', 'getbestblockhash', '11' * 32], ['calls', n], ['error', 'getbalance', 'dict', -5], ['calls', 300],
+                     ['use_hash', 'getblock', 0], ['recv', 'getbalance', 2099999997690000, 'fixed8']]})
+    ctx.exhaustive.append('%d consecutive calls on one proxy (ids strictly increasing throughout, across 2^16), then an error, then more calls' % n)
+
+
+TASKS = [('stateful', (t_stateful, 8)), ('random', (t_random, 6)), ('amounts', (t_amounts, 2)), ('soak', (t_soak, 1))]
